@@ -34,7 +34,7 @@ ALG_OPTS = {"main": False, "mex": False, "with_header": True, "with_mem": True}
 
 
 def shipped():
-    """[(set id, lean namespace, {fname: Function}, generate(dest, **opts) -> [c file names], accepted options)]"""
+    """[(generator id, [(lean namespace, {fname: Function}, c file)], generate(dest, **opts), accepted options)]"""
     import cyecca.codegen as cg
     import cyecca.estimate.attitude.algorithms as alg
     import cyecca.models.rdd2 as rdd2
@@ -43,28 +43,28 @@ def shipped():
     import cyecca.models.mr_ref_traj as mr
     S = []
     E = alg.eqs()
-    for nm in ("mrp", "sim"):
-        S.append(("estimator_" + nm, "est_" + nm, E[nm],
-                  (lambda dest, nm=nm, **kw: (alg.generate_code({nm: E[nm]}, dest, **kw), ["casadi_%s.c" % nm])[1]), ALG_OPTS))
-        S.append(("codegen_" + nm, "cg_" + nm, E[nm],
-                  (lambda dest, nm=nm, **kw: (cg.generate_code({nm: E[nm]}, dest, **kw), ["%s.c" % nm])[1]), GENERIC_OPTS))
+    # both estimator generators are called the way the repository calls them: ONE call with the whole {set: functions} dict
+    S.append(("estimator", [("est_mrp", E["mrp"], "casadi_mrp.c"), ("est_sim", E["sim"], "casadi_sim.c")],
+              (lambda dest, **kw: alg.generate_code(E, dest, **kw)), ALG_OPTS))
+    S.append(("codegen", [("cg_mrp", E["mrp"], "mrp.c"), ("cg_sim", E["sim"], "sim.c")],
+              (lambda dest, **kw: cg.generate_code(E, dest, **kw)), GENERIC_OPTS))
     eq = {}
     for d in (rdd2.derive_attitude_rate_control, rdd2.derive_attitude_control, rdd2.derive_position_control, rdd2.derive_input_acro,
               rdd2.derive_input_auto_level, rdd2.derive_input_velocity, rdd2.derive_strapdown_ins_propagation,
               rdd2.derive_control_allocation, rdd2.derive_common):
         eq.update(d())
-    S.append(("rdd2", "rdd2", eq, (lambda dest, **kw: (rdd2.generate_code(eq, filename="rdd2.c", dest_dir=dest, **kw), ["rdd2.c"])[1]), GENERIC_OPTS))
+    S.append(("rdd2", [("rdd2", eq, "rdd2.c")], (lambda dest, **kw: rdd2.generate_code(eq, filename="rdd2.c", dest_dir=dest, **kw)), GENERIC_OPTS))
     eq2 = {}
     for d in (ll.derive_so3_attitude_control, ll.derive_outerloop_control, ll.derive_se23_error):
         eq2.update(d())
-    S.append(("rdd2_loglinear", "loglinear", eq2,
-              (lambda dest, **kw: (ll.generate_code(eq2, filename="rdd2_loglinear.c", dest_dir=dest, **kw), ["rdd2_loglinear.c"])[1]), GENERIC_OPTS))
+    S.append(("rdd2_loglinear", [("loglinear", eq2, "rdd2_loglinear.c")],
+              (lambda dest, **kw: ll.generate_code(eq2, filename="rdd2_loglinear.c", dest_dir=dest, **kw)), GENERIC_OPTS))
     eq3 = {}
     for d in (bz.derive_bezier7, bz.derive_bezier3, bz.derive_dcm_to_quat, bz.derive_ref, bz.derive_multirotor):
         eq3.update(d())
-    S.append(("bezier", "bezier", eq3, (lambda dest, **kw: (bz.generate_code(eq3, filename="bezier.c", dest_dir=dest, **kw), ["bezier.c"])[1]), GENERIC_OPTS))
+    S.append(("bezier", [("bezier", eq3, "bezier.c")], (lambda dest, **kw: bz.generate_code(eq3, filename="bezier.c", dest_dir=dest, **kw)), GENERIC_OPTS))
     eq4 = dict(mr.derive_mr_ref_traj())
-    S.append(("mr_ref_traj", "mr_ref", eq4, (lambda dest, **kw: (cg.generate_code({"mr_ref_traj": eq4}, dest, **kw), ["mr_ref_traj.c"])[1]), GENERIC_OPTS))
+    S.append(("mr_ref_traj", [("mr_ref", eq4, "mr_ref_traj.c")], (lambda dest, **kw: cg.generate_code({"mr_ref_traj": eq4}, dest, **kw)), GENERIC_OPTS))
     return S
 
 
